@@ -133,6 +133,7 @@ def in_bool_context(n: ast.AST) -> bool:
 # Everything else is compared structurally (node types and fields; ctx, positions and type comments ignored).
 import re as _re
 
+_MIRROR = {ast.Lt: ast.Gt, ast.Gt: ast.Lt, ast.LtE: ast.GtE, ast.GtE: ast.LtE}
 _WILD = _re.compile(r'\$\$?[A-Za-z_][A-Za-z0-9_]*')
 _pat_cache: Dict[str, ast.AST] = {}
 
@@ -192,6 +193,25 @@ def _unify(p, n, b) -> bool:
             b[key] = n.arg
         return True
     if type(p) is not type(n):
+        return False
+    if isinstance(p, ast.Compare) and len(p.ops) == 1 and isinstance(p.ops[0], (ast.Eq, ast.NotEq, ast.Is, ast.IsNot)) \
+            and isinstance(n, ast.Compare) and len(n.ops) == 1 and type(n.ops[0]) is type(p.ops[0]):
+        # symmetric comparison: either operand order
+        for nl, nr in ((n.left, n.comparators[0]), (n.comparators[0], n.left)):
+            b2 = dict(b)
+            if _unify(p.left, nl, b2) and _unify(p.comparators[0], nr, b2):
+                b.clear()
+                b.update(b2)
+                return True
+        return False
+    if isinstance(p, ast.Compare) and len(p.ops) == 1 and type(p.ops[0]) in _MIRROR and isinstance(n, ast.Compare) and len(n.ops) == 1 \
+            and type(n.ops[0]) is _MIRROR[type(p.ops[0])]:
+        # a < b matches b > a
+        b2 = dict(b)
+        if _unify(p.left, n.comparators[0], b2) and _unify(p.comparators[0], n.left, b2):
+            b.clear()
+            b.update(b2)
+            return True
         return False
     for field in p._fields:
         if field in ('ctx', 'type_comment', 'kind'):
@@ -407,3 +427,20 @@ def bool_relation(a: ast.AST, b: ast.AST) -> Optional[str]:
 def cond_value_of(nodes, target: Optional[str] = None):
     """Like cond_values, restricted to one target text ('return' for returns)."""
     return [c for c in cond_values(nodes) if target is None or c[0] == target]
+
+
+def as_less(c: ast.AST) -> Optional[Tuple[ast.AST, str, ast.AST]]:
+    """(lo, '<' or '<=', hi) for a single ordering comparison in either spelling (a < b, b > a)."""
+    if not (isinstance(c, ast.Compare) and len(c.ops) == 1):
+        return None
+    op = c.ops[0]
+    l, r = c.left, c.comparators[0]
+    if isinstance(op, ast.Lt):
+        return l, '<', r
+    if isinstance(op, ast.LtE):
+        return l, '<=', r
+    if isinstance(op, ast.Gt):
+        return r, '<', l
+    if isinstance(op, ast.GtE):
+        return r, '<=', l
+    return None
